@@ -180,7 +180,7 @@ func rulesC20(c *Ctx) {
 			if end != nil {
 				for _, t := range p.chain(T(end, st)) {
 					call, ok := unparen(t.E).(*ast.CallExpr)
-					if !ok || len(call.Args) != 2 {
+					if !ok || len(call.Args) < 2 {
 						continue
 					}
 					if id, ok := unparen(call.Fun).(*ast.Ident); !ok || id.Name != "min" {
@@ -210,7 +210,7 @@ func rulesC20(c *Ctx) {
 				if cl != nil {
 					for _, el := range cl.Elts {
 						if kv, isKV := el.(*ast.KeyValueExpr); isKV && kv.Key.(*ast.Ident).Name == "events" {
-							if mk, isCall := unparen(kv.Value).(*ast.CallExpr); isCall && len(mk.Args) == 2 && p.Src(mk.Args[1]) == p.Src(w.Arg) {
+							if mk, isCall := unparen(kv.Value).(*ast.CallExpr); isCall && len(mk.Args) >= 2 && p.Src(mk.Args[1]) == p.Src(w.Arg) {
 								ok = true
 							}
 						}
@@ -227,7 +227,7 @@ func rulesC20(c *Ctx) {
 				}
 				st := p.StateAt(w.Fn, ew.Node)
 				for _, t := range p.chain(T(ew.Arg, st)) {
-					if mk, isCall := unparen(t.E).(*ast.CallExpr); isCall && len(mk.Args) == 2 && p.Src(mk.Args[1]) == p.Src(w.Arg) {
+					if mk, isCall := unparen(t.E).(*ast.CallExpr); isCall && len(mk.Args) >= 2 && p.Src(mk.Args[1]) == p.Src(w.Arg) {
 						ok = true
 					}
 				}
@@ -354,7 +354,7 @@ func rulesC20(c *Ctx) {
 				}
 				isEvents := false
 				ast.Inspect(y.E, func(m ast.Node) bool {
-					if lc, isCall := m.(*ast.CallExpr); isCall && len(lc.Args) == 1 && p.Src(lc.Fun) == "len" {
+					if lc, isCall := m.(*ast.CallExpr); isCall && len(lc.Args) >= 1 && p.Src(lc.Fun) == "len" {
 						if _, isEv := p.fieldSel(lc.Args[0], es+".events"); isEv {
 							isEvents = true
 						}
@@ -385,7 +385,7 @@ func rulesC20(c *Ctx) {
 		// the copy source is events[:idx]
 		src := false
 		ast.Inspect(fn.Decl.Body, func(n ast.Node) bool {
-			if call, ok := n.(*ast.CallExpr); ok && len(call.Args) == 2 {
+			if call, ok := n.(*ast.CallExpr); ok && len(call.Args) >= 2 {
 				if id, ok := unparen(call.Fun).(*ast.Ident); ok && id.Name == "copy" {
 					if se, ok := unparen(call.Args[1]).(*ast.SliceExpr); ok && se.Low == nil && se.High != nil {
 						_, a := p.fieldSel(se.X, es+".events")
@@ -495,7 +495,7 @@ func rulesC20(c *Ctx) {
 		c.Floor("C20.f", "data answers of getEventsFromID", nData, 2)
 		// wrap case is entered only for a full buffer with pos >= head
 		for _, call := range p.callsIn(fn, rb+".getEntriesFromRanges") {
-			if len(call.Args) == 2 && !p.isNilExpr(call.Args[1]) {
+			if len(call.Args) >= 2 && !p.isNilExpr(call.Args[1]) {
 				st := p.StateAt(fn, call)
 				full := p.Holds(st, p.BoolAtom(true, func(t Term) bool { _, ok := p.fieldSel(t.E, rb+".full"); return ok }))
 				after := p.Holds(st, p.CmpAtom(func(op token.Token, x, y Term) bool {
@@ -561,7 +561,7 @@ func rulesC20(c *Ctx) {
 		}
 		sites := p.CallSites(fn.Obj)
 		for _, cs := range sites {
-			ok := len(cs.Call.Args) == 1 && capSource(cs.Caller, cs.Call.Args[0], cs.Call, site.getter, site.field)
+			ok := len(cs.Call.Args) >= 1 && capSource(cs.Caller, cs.Call.Args[0], cs.Call, site.getter, site.field)
 			c.Check("C20.g", "capacity argument of "+shortFn(site.callee)+" in "+cs.Caller.Name, cs.Call, ok, "%s is called with %s, which does not come from %s", site.callee, p.Src(cs.Call.Args[0]), site.getter)
 		}
 		c.Floor("C20.g", "call sites of "+shortFn(site.callee), len(sites), 1)
